@@ -450,6 +450,8 @@ class Num(Val):
         self.ex = None          # exact (rational-affine) value of a scalar when known
         self.sx = None          # exact value as a sympy expression (products/quotients of sizes)
         self.seg = None         # D3 index map (list of segmap.Seg) when the array is a re-arrangement
+        self.segax = 0          # axis the index map describes (arrays of rank > 1)
+        self.mirror = False     # the vector is the complex conjugate of a spectrum-bearing vector (rows of Vh)
 
     def copy(self, **kw):
         n = Num(dict(self.deg), self.shape, self.cplx, self.zero, dict(self.log) if self.log else self.log,
@@ -457,6 +459,8 @@ class Num(Val):
         n.ex = self.ex
         n.sx = self.sx
         n.seg = None            # index maps never survive an implicit copy: each operation sets its own
+        n.segax = 0
+        n.mirror = self.mirror
         for k, v in kw.items():
             setattr(n, k, v)
         return n
@@ -678,6 +682,15 @@ def num_join(a, b):
     r.shape = shape_join(a.shape, b.shape)
     r.zero = a.zero and b.zero
     r.ex = a.ex if (a.ex is not None and b.ex is not None and a.ex == b.ex) else None
+    r.mirror = a.mirror if (b.zero or a.mirror == b.mirror) else (b.mirror if a.zero else False)
+    if a.seg is not None or b.seg is not None:
+        from . import segmap
+        if a.zero and a.seg is None:
+            r.seg, r.segax = b.seg, b.segax
+        elif b.zero and b.seg is None:
+            r.seg, r.segax = a.seg, a.segax
+        elif a.seg is not None and b.seg is not None and a.segax == b.segax and segmap.same(a.seg, b.seg):
+            r.seg, r.segax = a.seg, a.segax
     return r
 
 
